@@ -20,6 +20,7 @@ import (
 	"encoding/json"
 	"fmt"
 	"os"
+	"runtime/debug"
 	"strings"
 	"sync"
 	"time"
@@ -173,6 +174,11 @@ func replay(r *vk.Run) {
 func main() {
 	r := vk.Start("C04", "exploration")
 	initSamples()
+	// The live heap is a few MB while every decode allocates: with the default GOGC the collector
+	// would run thousands of times per second and serialise the 16 workers. Collect by memory limit
+	// instead (the process stays below ~0.6 GB).
+	debug.SetGCPercent(-1)
+	debug.SetMemoryLimit(512 << 20)
 
 	if strings.HasPrefix(r.Worker, "listen") {
 		listenWorker(r, os.Getenv("C04_PROGRESS"))
@@ -224,6 +230,7 @@ func main() {
 		events += res.Events
 		errs += res.Errors
 	}
+	cleanWorkDir()
 	r.Set("listener_events_delivered", events)
 	r.Set("listener_datagrams_rejected", errs)
 	lap("listener: event datagrams", evDistinct)
